@@ -155,6 +155,65 @@ func runCKKSRefreshBody(c CKKSCase, rec *h.Rec) error {
 	if !ct.Equal(ctOrig) {
 		return h.Failf("C16:mpckks:"+c.Mode+":GenShare:input-modified", "GenShare modified the input ciphertext")
 	}
+	// smudging lower bound on refresh shares (see the mpbgv twin): when the ciphertext scale equals the default scale the
+	// rescaled mask is the mask itself and cancels between the two halves of an identity-transform share.
+	if c.ScaleMul == 1 {
+		lc := c.LevelE
+		if c.LevelO < lc {
+			lc = c.LevelO
+		}
+		ringC := params.RingQ().AtLevel(lc)
+		residual := func(i int, sh multiparty.RefreshShare) []*big.Int {
+			r := ringC.NewPoly()
+			ringC.Add(sh.EncToShareShare.Value, sh.ShareToEncShare.Value, r)
+			ringC.MulCoeffsMontgomeryThenSub(ct.Value[1], x.in.shares[i].Value.Q, r)
+			ringC.MulCoeffsMontgomeryThenAdd(crp.Value, outKeys.shares[i].Value.Q, r)
+			ringC.INTT(r, r)
+			ringC.Reduce(r, r)
+			return centered(ringC, r)
+		}
+		var pools smudgePools
+		collect := func(k int, r []*big.Int) error {
+			if infNorm(r).Cmp(bigF(2*x.bParty)) > 0 {
+				return h.Failf("C16:mpckks:"+c.Mode+":GenShare:noise-above-bound", "refresh-share noise 2^%.1f exceeds the hard bound %g (sigma=%g)", log2Big(infNorm(r)), 2*x.bParty, c.Sigma)
+			}
+			pools.add(k, r)
+			return nil
+		}
+		if !isT {
+			for i := range shares {
+				k := 1
+				if i == 0 || !c.Shallow {
+					k = 0
+				}
+				if err := collect(k, residual(i, shares[i])); err != nil {
+					return err
+				}
+			}
+		}
+		mC := mltp0.ShallowCopy()
+		mCC := mC.ShallowCopy()
+		for k := 0; pools.short(0) || pools.short(1); k++ {
+			px, kc := mltp0, 0
+			if !pools.short(0) {
+				px, kc = mC, 1
+				if k%2 == 1 {
+					px = mCC
+				}
+			}
+			sh := px.AllocateShare(c.LevelE, c.LevelO)
+			if err := px.GenShare(x.in.shares[0], outKeys.shares[0], x.logBound, ct, crp, nil, &sh); err != nil {
+				return h.Failf("C16:mpckks:"+c.Mode+":GenShare:error", "%v", err)
+			}
+			if err := collect(kc, residual(0, sh)); err != nil {
+				return err
+			}
+		}
+		if err := pools.check(c.Sigma, math.Sqrt2, "C16:mpckks:"+c.Mode+":GenShare:smudging-too-small", rec); err != nil {
+			return err
+		}
+	}
+
 	copyShare := func(s multiparty.RefreshShare) multiparty.RefreshShare {
 		return multiparty.RefreshShare{EncToShareShare: multiparty.KeySwitchShare{Value: *s.EncToShareShare.Value.CopyNew()},
 			ShareToEncShare: multiparty.KeySwitchShare{Value: *s.ShareToEncShare.Value.CopyNew()}, MetaData: s.MetaData}
